@@ -15,6 +15,33 @@ CHECKS = {
  'C19': ('exploration', 'runtime differential monitoring of the calendar helpers against time.UnixMilli(t).UTC(), enumerating every day of 2000-2099 at fixed instants and minute boundaries; format/parse inverse over generated patterns',
          'Every day of the century is enumerated (36 525 days x 7 instants exhaustively; every minute boundary +-1 ms of every day in the thorough tier) and each helper result compared field by field with the standard library; unit functions are checked as exact step functions at every boundary; DateFormat format/parse round trips over generated patterns.',
          'Trusts the Go time package; instants within a day other than the enumerated ones are sampled; TZ is forced to UTC; partial patterns are checked only as far as the code documents (absent fields default to now).', 'DESIGN.md §4 C19'),
+ 'C01': ('exploration', 'runtime differential monitoring of the real stream codec against an independent reference encoder/reader: exhaustive sweeps of all 8/16/24-bit (and, thorough, 32-bit) patterns, boundary enumeration of decimal classes and length thresholds, and random write/read programs with Size()/Available()/canary monitors',
+         'Every fixed-width write/read pair and the little-endian helpers are executed on every 2^16 and 2^24 pattern (all 2^32 in the thorough tier), decimals on every value around each length-class boundary, blobs/texts/arrays at every threshold, and random programs of 1..64 mixed writes are replayed as the matching reads; bytes must equal the independent refcodec image, Size() and Available() are checked after every operation.',
+         'Trusts harness/refcodec (written from the layout, no golib imports; cross-checked by its own reader). 40/64-bit values and programs are sampled with boundary bias; payloads beyond 2^20 bytes are not materialised.', 'DESIGN.md §4 C01'),
+ 'C02': ('exploration', 'runtime differential monitoring: real WriteValue/ReadValue versus an independent reference encoder of the tagged value format, structural comparison through a neutral value tree, consumption canary and re-encode check',
+         'Generated value trees over all implemented type codes (empty/singleton/wide up to 40 000 entries/deep up to depth 2000/mixed/colliding keys) are encoded by golib and by the reference encoder (bytes must match), decoded (type, payload and order must match through an independent walker, not golib Equals), must consume exactly their bytes and re-encode identically.',
+         'Trusts harness/refcodec/value.go and harness/valgen; values are sampled with boundary bias; type code 47 has no Go type and cannot be built.', 'DESIGN.md §4 C02'),
+ 'C07': ('exploration', 'runtime monitoring of UDP pack writer/reader agreement per (type, version) with measured carried-field sets (plus a committed gate table), pool-reuse residue monitor on pointer-identical reuse, and password-marker scanning after Process()',
+         'For every pack type and every version around every gate the writer and reader are run on filled packs: every carried field (carried = flipping it changes the bytes) must be restored, every other field stay zero, and the reader consume exactly the bytes; measured carried sets are compared with spec/udp_gates.json. Pool histories compare re-acquired (pointer-identical) packs with fresh ones; connection strings with unique password markers are processed and every string field scanned.',
+         'spec/udp_gates.json was generated from the pinned tree and reviewed; pool reuse is only decided when sync.Pool actually returns the same object (floor on reuse events); field values are sampled.', 'DESIGN.md §4 C07'),
+ 'C08': ('exploration', 'runtime differential monitoring of step streams, transaction and service records against an independent reference encoder, with per-step consumption offsets and optional-section presence oracles',
+         'Lists of 0..200 steps over all registered step types and versions are written, compared byte for byte with the reference encoder, and read back step by step (same steps, same order, cumulative offsets equal the reference sizes); transaction records over all 64 combinations of optional groups, service records and the embedding packs are round-tripped the same way.',
+         'Trusts harness/refcodec/step.go, txrecord.go and harness/stepgen; field values are sampled with boundary bias.', 'DESIGN.md §4 C08'),
+ 'C11': ('exploration', 'runtime monitoring of the queues: lock-step sequential FIFO model with callback prediction, offline checkers over recorded concurrent histories (conservation, exactly-once, per-producer order, capacity bound), porcupine linearizability against FIFO / two-FIFO models, blocking-get wake-up probes, timed-get lower bound, Go race detector',
+         'Sequential operation sequences on RequestQueue and both lanes of RequestDoubleQueue are checked step by step against a FIFO model that predicts returns, Failed/Overflowed arguments and Size(); producer/consumer histories with consumers parked before the first put are checked for conservation, exactly-once delivery, per-producer order and double-queue priority; short histories are checked with porcupine; the same workloads run under -race.',
+         'Only interleavings the scheduler produced are covered (evidence reports histories, overlap, wake-ups); a lost wake-up is only concluded from a consumer parked with Size()>0 observed stably, bare timeouts are inconclusive.', 'DESIGN.md §4 C11'),
+ 'C13': ('exploration', 'runtime monitoring against slice models and checked sorting oracles: lock-step sequence model for the typed lists and the linked list, out-of-range probes incl. spare capacity, wire form versus an independent reference encoding, permutation/order/tie-break checks of Sorting results',
+         'Random operation sequences on the five typed lists and the linked list are compared step by step with a slice model across capacity growth; every index outside [0,size) must be reported; Write/Read round trips are compared with a reference encoding; Sorting/SortingAnyList results are checked to be permutations ordering primary then child values in the requested directions for all 5x5 type pairs; Filtering returns exactly the selected elements.',
+         'Operation sequences and values are sampled; NaN floats excluded as the property states.', 'DESIGN.md §4 C13'),
+ 'C14': ('exploration', 'runtime monitoring against an independent HyperLogLog reference model (own register array and murmur port): register equality after every batch, order/duplicate independence, merge = union byte for byte, serialisation round trip, estimator re-evaluation and error bands',
+         'Item sets at precisions 4..16 and cardinalities 0..20m are offered to the real counter and to a reference model; unpacked registers must be equal, Offer must report register growth, shuffled/duplicated orders and merges of 2..5 parts must give identical bytes, inputs must be untouched, mismatched precisions rejected, and Cardinality() must equal an independent evaluation of the estimator and stay within the calibrated error band.',
+         'The reference model and murmur port in cmd/wC14 are written from the algorithm; the per-evaluation error band is 12 sigma with a 6 % floor plus a per-shard median check (a 7 sigma band was shown to fire on correct code); item sets are sampled.', 'DESIGN.md §4 C14'),
+ 'C17': ('exploration', 'runtime monitoring of the real file logger on temp homes under the library virtual clock: file-content oracles for lines/order/suppression/level, rotation and retention set-difference oracles over seeded directories, read-window and path-traversal probes with an outside canary, Go race detector',
+         'Scenarios log uniquely numbered lines from 1..16 goroutines through every entry point, advance the virtual clock across day boundaries and run the cycle hook, seed log directories with own/foreign/undated/invalid-date files around the keep-days edge, and call Read with hostile names, positions and lengths; oracles compare the files on disk with what must be there.',
+         'Uses the verif hooks VerifCycle/VerifClearOldLog; the real 10 s timer goroutine cannot be stopped and is tolerated; concurrent suppression is checked one-sidedly.', 'DESIGN.md §4 C17'),
+ 'C20': ('exploration', 'runtime law checking (no model): totality, reflexive/symmetric/transitive Equals, decoded-copy equality, CompareTo sign reversal, transitivity, zero-iff-equal for scalars and type-code order, over generated pairs and triples covering all type pairs',
+         'Pairs and triples over all 20x20 implemented type pairs and the targeted shapes (different key sets, insertion orders, element types, nil versus empty, equal-sum summaries, NaN as its own class, a value and its decoded copy) are evaluated; any panic or broken law is reported under a key naming law, types and shape.',
+         'Laws only: a lawful but wrong ordering is not visible (payload content is C02). Known findings (container CompareTo and NaN) are listed in known_findings.jsonl with witnesses.', 'DESIGN.md §4 C20'),
 }
 PENDING = 'check not built yet in this round (planned, see DESIGN.md §4); not claimed until its monitor exists and is silent on the unchanged tree'
 NA = {}
